@@ -522,8 +522,9 @@ def make_case(rng, kind, label_type="int"):
     d = rng.choice([1, 2, 2, 3])
     X = numpy.zeros((n, d + 1))
     X[:, 0] = numpy.arange(n)
+    off = rng.choice([0, 0, 0, -3, -5, -4])      # features of either sign: tree thresholds such as -2.0, -1.0, 0.0 occur
     for j in range(1, d + 1):
-        X[:, j] = [rng.randint(0, 9) for _ in range(n)]
+        X[:, j] = [rng.choice([0, 2, 4, 6, 8, 1]) + off if off else rng.randint(0, 9) for _ in range(n)]
     w = None
     if rng.random() < 0.5:
         lo = rng.choice([1, 1, 0])      # "all sample weights": count weights may be 0 for some rows
@@ -554,7 +555,7 @@ def make_case(rng, kind, label_type="int"):
     B = numpy.zeros((m, d + 1))
     B[:, 0] = numpy.arange(m)
     for j in range(1, d + 1):
-        B[:, j] = [rng.randint(0, 9) for _ in range(m)]
+        B[:, j] = [rng.randint(0, 9) + off for _ in range(m)]
     return X, y, w, B, codes, cls_
 
 
